@@ -12,7 +12,7 @@ BADMATCHERS = ['(', '[', 'a.b.c', 'x ! y ! z', '', ' ', 'wl_a@5', '"']
 VALUES = ['x y', 'a"b', 'c\\d', "it's", 'a\\nb', 'back\\\\slash', '\\', '"', "'", '""', 'tab\\t', '/tmp', 'file.log', 'r', 'g', 'run', 'gdb', '$HOME', '`x`', 'a;b', 'ü', '%s', '{0}',
           'main.py', 'x=1', 'a,b']
 MARK = ['-r', '--run', '-g', '--gdb']
-AFTER = ['prog', './a.out', '-f', 'x', '-r', '--gdb', '-g', '--run', 'a b', '', '-Cr', '--', '-l', '-h', '--help', '"q"', '\\', '-ex', 'run', '--args', '-p', '--pipe',
+AFTER = ['prog', './a.out', '--verbose', '--color', '-f', 'x', '-r', '--gdb', '-g', '--run', 'a b', '', '-Cr', '--', '-l', '-h', '--help', '"q"', '\\', '-ex', 'run', '--args', '-p', '--pipe',
          'c\\d', "it's", '-b', '!', '--supress', '-C', '$X', '*', 'a"b']
 PRINTABLE = ''.join(c for c in string.printable if c not in '\n\r\t\x0b\x0c')
 
@@ -323,6 +323,11 @@ class RunChild(Stage):
                 res.bad('program-argv', 'started with %r, expected %r' % (rep['argv'], after))
             if rep['wayland_debug'] != '1':
                 res.bad('wayland-debug-env', repr(rep['wayland_debug']))
+            # words after the marker are the program's: wayland-debug must not act on them (e.g. turn verbose / coloured)
+            if b'INFO:' in err or b'DEBUG:' in err:
+                res.bad('forwarded-word-interpreted:verbose', '%r: wayland-debug logs at INFO/DEBUG level: %r' % (after, err[:200]))
+            if b'\x1b[' in out:
+                res.bad('forwarded-word-interpreted:color', '%r: coloured output although -C was given before the marker' % (after,))
         res.nontrivial = any(w.startswith('-') for w in after)
         res.sample = after
         return res
